@@ -2,6 +2,7 @@
 package main
 
 import (
+	"bufio"
 	"bytes"
 	"compress/flate"
 	"fmt"
@@ -65,20 +66,27 @@ var identityExt = wsutil.SendExtensionFunc(func(h ws.Header) (ws.Header, error) 
 var chains = []string{"state-only", "state+other", "other+state"}
 
 func runSend(client bool, bufN int, seq []msgSpec, recycled bool) *explore.Fail {
-	for _, chain := range chains {
-		// origin: the writer was made for text messages, or made for a control opcode (a pong
-		// writer, say) and switched to text with the quick ResetOp
-		for _, origin := range []string{"made-for-text", "made-for-pong-then-ResetOp"} {
+	// origin: the writer was made for text messages; or made for a control opcode (a pong
+	// writer, say) and switched to text with the quick ResetOp; or it writes into a
+	// *bufio.Writer that the application flushes after every message
+	origins := []string{"made-for-text"}
+	chainsHere := chains
+	switch {
+	case recycled:
+		chainsHere = chains[:1]
+	case len(seq) == 1:
+		origins = []string{"made-for-text", "made-for-pong-then-ResetOp", "through-bufio.Writer"}
+	case len(seq) == 2:
+		origins = []string{"made-for-text", "through-bufio.Writer"}
+	default:
+		chainsHere = chains[:1]
+	}
+	for _, chain := range chainsHere {
+		for _, origin := range origins {
 			if f := runSendChain(client, bufN, seq, recycled, chain, origin); f != nil {
 				f.Detail = "send extensions: " + chain + "; writer " + origin + "\n" + f.Detail
 				return f
 			}
-			if recycled || len(seq) > 1 {
-				break
-			}
-		}
-		if recycled || len(seq) > 2 {
-			break
 		}
 	}
 	return nil
@@ -86,6 +94,15 @@ func runSend(client bool, bufN int, seq []msgSpec, recycled bool) *explore.Fail 
 
 func runSendChain(client bool, bufN int, seq []msgSpec, recycled bool, chain, origin string) *explore.Fail {
 	d := env.NewDst()
+	// dst is where the writer and the control helpers write: the recording destination itself,
+	// or a *bufio.Writer in front of it that the application flushes after every message (its
+	// buffer then still holds the bytes of what went out before)
+	var dst io.Writer = d
+	var bw *bufio.Writer
+	if origin == "through-bufio.Writer" {
+		bw = bufio.NewWriterSize(d, 4096)
+		dst = bw
+	}
 	st := ws.StateServerSide
 	if client {
 		st = ws.StateClientSide
@@ -103,11 +120,11 @@ func runSendChain(client bool, bufN int, seq []msgSpec, recycled bool, chain, or
 		w.SetExtensions(&old)
 		w.Write(bytes.Repeat([]byte{'x'}, 3*bufN))
 		w.Flush()
-		w.Reset(d, st, ws.OpText)
+		w.Reset(dst, st, ws.OpText)
 	} else if origin == "made-for-pong-then-ResetOp" {
-		w = wsutil.NewWriterBufferSize(d, st, ws.OpPong, bufN)
+		w = wsutil.NewWriterBufferSize(dst, st, ws.OpPong, bufN)
 	} else {
-		w = wsutil.NewWriterBufferSize(d, st, ws.OpText, bufN)
+		w = wsutil.NewWriterBufferSize(dst, st, ws.OpText, bufN)
 	}
 	switch chain {
 	case "state+other":
@@ -135,12 +152,12 @@ func runSendChain(client bool, bufN int, seq []msgSpec, recycled bool, chain, or
 			w.Write(p)
 		case "two-writes":
 			w.Write(p[:n/2])
-			sendCtlIfEmpty(m.ctlAfter, d, st, w)
+			sendCtlIfEmpty(m.ctlAfter, dst, st, w)
 			w.Write(p[n/2:])
 		case "split-flushfragment":
 			w.Write(p[:n/2])
 			w.FlushFragment()
-			sendCtl(m.ctlAfter, d, st)
+			sendCtl(m.ctlAfter, dst, st)
 			w.Write(p[n/2:])
 		case "bytewise":
 			for i := range p {
@@ -148,14 +165,17 @@ func runSendChain(client bool, bufN int, seq []msgSpec, recycled bool, chain, or
 			}
 		case "writethrough-first":
 			w.WriteThrough(p[:n/2])
-			sendCtl(m.ctlAfter, d, st)
+			sendCtl(m.ctlAfter, dst, st)
 			w.Write(p[n/2:])
 		}
 		if err := w.Flush(); err != nil {
 			return explore.Failf("flush-error", "%v", err)
 		}
-		sendCtl(m.ctlAfter, d, st)
+		sendCtl(m.ctlAfter, dst, st)
 		wants = append(wants, want{m.compressed, n})
+		if bw != nil {
+			bw.Flush()
+		}
 	}
 	frames, rest := drivers.ParseFrames(d.Bytes())
 	if len(rest) != 0 {
